@@ -5,31 +5,82 @@ from .values import NOT_IMPLEMENTED
 from .explore import Unsupported
 
 
+def _conc(*vs):
+    """all operands are concrete Python numbers (int / float, no bool-as-symbolic): CPython itself is the exact model"""
+    return all(isinstance(v, (int, float)) for v in vs)
+
+
+def concrete_binop(interp, t, a, b):
+    """exact arithmetic on CONCRETE int/float operands, evaluated by CPython (so: binary64, true division of ints
+    correctly rounded, ...).  Raises the Python exception the operation raises."""
+    import ast as _ast
+    import operator as _op
+    f = {_ast.Add: _op.add, _ast.Sub: _op.sub, _ast.Mult: _op.mul, _ast.Div: _op.truediv, _ast.FloorDiv: _op.floordiv,
+         _ast.Mod: _op.mod, _ast.Pow: _op.pow}.get(t)
+    if f is None:
+        if isinstance(a, float) or isinstance(b, float):
+            interp.throw("TypeError", "unsupported operand type(s) for float")
+        raise Unsupported("float arithmetic")
+    try:
+        r = f(a, b)
+    except ZeroDivisionError:
+        interp.throw("ZeroDivisionError", "division by zero")
+    except OverflowError:
+        interp.throw("OverflowError", "result too large")
+    if isinstance(r, complex):
+        raise Unsupported("complex arithmetic")
+    return r
+
+
 def real_binop(interp, t, a, b):
+    if _conc(a, b):
+        return concrete_binop(interp, t, a, b)
     raise Unsupported("float arithmetic")
 
 
 def real_cmp(interp, sym, a, b):
+    if _conc(a, b):
+        return {"<": a < b, "<=": a <= b, ">": a > b, ">=": a >= b, "==": a == b, "!=": a != b}[sym]
     raise Unsupported("float comparison")
 
 
 def real_neg(interp, v):
+    if _conc(v):
+        return -v
     raise Unsupported("float arithmetic")
 
 
 def real_abs(interp, v):
+    if _conc(v):
+        return abs(v)
     raise Unsupported("float arithmetic")
 
 
 def trunc(interp, v):
+    if isinstance(v, float):
+        if v != v:
+            interp.throw("ValueError", "cannot convert float NaN to integer")
+        if v in (float("inf"), float("-inf")):
+            interp.throw("OverflowError", "cannot convert float infinity to integer")
+        return int(v)
     raise Unsupported("float to int")
 
 
 def to_float(interp, v):
+    if isinstance(v, bool) or _conc(v):
+        try:
+            return float(v)
+        except OverflowError:
+            interp.throw("OverflowError", "int too large to convert to float")
     raise Unsupported("float()")
 
 
 def round_(interp, v, nd):
+    if _conc(v) and (nd is None or isinstance(nd, int)):
+        try:
+            return round(v) if nd is None else round(v, nd)
+        except (OverflowError, ValueError) as e:
+            interp.throw(type(e).__name__, str(e))
     raise Unsupported("round()")
 
 
@@ -38,6 +89,10 @@ def float_attr(interp, obj, name):
 
 
 def datetime_binop(interp, t, a, b):
+    # unmodelled datetime / timedelta placeholders stay inert placeholders under + and -
+    if isinstance(a, Dummy) and isinstance(b, Dummy) and a.name.startswith("datetime.") and b.name.startswith("datetime.") \
+            and t.__name__ in ("Add", "Sub"):
+        return Dummy(f"datetime.({a.name} {t.__name__} {b.name})")
     return NOT_IMPLEMENTED
 
 
